@@ -31,6 +31,7 @@ type Exec struct {
 	readLog    map[string]bool
 	entryMeasure Term
 	heapElemType map[string]types.Type
+	inHandler  int // >0 while deferred calls are being executed
 	qhyps      []qhyp // quantified hypotheses that can be instantiated at goal constants
 }
 
@@ -395,6 +396,8 @@ func (fr *Frame) runDefers(st *State) *State {
 	ex := fr.ex
 	ds := st.defers
 	st.defers = nil
+	ex.inHandler++
+	defer func() { ex.inHandler-- }()
 	for i := len(ds) - 1; i >= 0 && st != nil; i-- {
 		d := ds[i]
 		switch f := d.fn.(type) {
